@@ -285,10 +285,117 @@ pub fn streamdata(trace: &[Value]) -> Vec<Value> {
     out
 }
 
+fn has_pkt(e: &Value, ty: &str) -> bool {
+    e["pk"].as_array().is_some_and(|a| a.iter().any(|p| p["ty"] == ty))
+}
+
+fn has_frame(e: &Value, name: &str) -> bool {
+    e["pk"].as_array().is_some_and(|a| {
+        a.iter()
+            .any(|p| frames_of(p).iter().any(|f| f["f"] == name))
+    })
+}
+
+fn path_of(p: &Value) -> Value {
+    json!({"rem":p["path"]["rem"],"val":p["path"]["val"],"gen":p["path"]["gen"],
+        "prem":p["prev"]["rem"]})
+}
+
+/// C07: one history per server-side connection plus the endpoint-level responses
+pub fn antiamp(trace: &[Value]) -> Vec<Value> {
+    let run = trace[0]["run"].clone();
+    let mut out = Vec::new();
+    let reset_ms = trace[0]["cfgx"]["min_reset_interval_ms"].as_i64().unwrap_or(20);
+    // endpoint level first (server node and client nodes alike)
+    out.push(json!({"ev":"Reset","run":run,"kind":"endpoint","interval":reset_ms * 1000}));
+    for e in trace {
+        match e["ev"].as_str().unwrap_or("") {
+            "Resp" => {
+                let is_reset = e["why"] == "handle"
+                    && e["pkts"].as_array().is_some_and(|a| a.iter().all(|p| p["ty"] == "S"));
+                out.push(json!({"ev":"Resp","t":e["t"],"n":e["n"],"size":e["size"],"incite":e["incite"],
+                    "why":e["why"],"reset":is_reset}));
+            }
+            "Rx" if e["kind"] != "conn" && e["kind"] != "noroute" && e["kind"] != "stale" => {
+                // a datagram that was not routed to an existing connection
+                let short_init = e["size"].as_i64().unwrap_or(0) < 1200
+                    && e["pk"][0]["ty"] == "I"
+                    && e["n"] == 0;
+                let same = e["ep_pre"] == e["ep_post"];
+                out.push(json!({"ev":"RxEp","t":e["t"],"n":e["n"],"size":e["size"],"kind":e["kind"],
+                    "shortinit":short_init,"epsame":same,"id":e["id"]}));
+            }
+            _ => {}
+        }
+    }
+    // per server connection
+    let mut first_size: i64 = 0;
+    let mut first_src: i64 = 0;
+    let mut first_validated = false;
+    let mut open: Vec<i64> = Vec::new();
+    let mut lines: std::collections::BTreeMap<i64, Vec<Value>> = Default::default();
+    for e in trace {
+        let ev = e["ev"].as_str().unwrap_or("");
+        if e["n"] != 0 {
+            continue;
+        }
+        match ev {
+            "Rx" if e["kind"] == "new" => {
+                first_size = e["size"].as_i64().unwrap_or(0);
+                first_src = e["src"].as_i64().unwrap_or(0);
+                first_validated = e["validated"] == true;
+            }
+            "Accept" if e["ok"] == true => {
+                let c = e["c"].as_i64().unwrap();
+                open.push(c);
+                let v = lines.entry(c).or_default();
+                v.push(json!({"ev":"Reset","run":run,"kind":"conn","c":c}));
+                v.push(json!({"ev":"RxC","t":e["t"],"src":first_src,"size":first_size,
+                    "proves":first_validated,"path":path_of(&e["post"])}));
+            }
+            "Rx" if e["kind"] == "conn" => {
+                let c = e["c"].as_i64().unwrap();
+                let processed = e["dfr_sum"].as_i64().unwrap_or(0) > 0;
+                let genuine = matches!(e["cls"].as_str().unwrap_or(""), "gen" | "dup" | "inject" | "shrunk");
+                // a Handshake packet or a PATH_RESPONSE that was really processed, from that address
+                let proves = processed && genuine && (has_pkt(e, "H") || has_frame(e, "PATH_RESPONSE"));
+                if let Some(v) = lines.get_mut(&c) {
+                    v.push(json!({"ev":"RxC","t":e["t"],"src":e["src"],"size":e["size"],
+                        "proves":proves,"path":path_of(&e["post"])}));
+                }
+            }
+            "Tx" => {
+                let c = e["c"].as_i64().unwrap();
+                let sizes: Vec<Value> = e["dgs"]
+                    .as_array()
+                    .map(|a| a.iter().map(|d| d["size"].clone()).collect())
+                    .unwrap_or_default();
+                if let Some(v) = lines.get_mut(&c) {
+                    v.push(json!({"ev":"TxC","t":e["t"],"dst":e["dst"],"sizes":sizes,
+                        "path":path_of(&e["post"]),"ppath":path_of(&e["pre"])}));
+                }
+            }
+            "Timeout" => {
+                // path validation failure may swap the path back
+                let c = e["c"].as_i64().unwrap();
+                if let Some(v) = lines.get_mut(&c) {
+                    v.push(json!({"ev":"Tick","t":e["t"],"path":path_of(&e["post"])}));
+                }
+            }
+            _ => {}
+        }
+    }
+    for (_, v) in lines {
+        out.extend(v);
+    }
+    out
+}
+
 pub fn project(name: &str, trace: &[Value]) -> Vec<Value> {
     match name {
         "lifecycle" => lifecycle(trace),
         "streamdata" => streamdata(trace),
+        "antiamp" => antiamp(trace),
         "master" => trace.to_vec(),
         o => panic!("unknown projection {o}"),
     }
